@@ -336,3 +336,39 @@ def spmDecode (V : Vocab) : List Nat → Option Str
     | _, _ => none
 
 end OllamaVerif.Tok
+
+namespace OllamaVerif.Tok
+
+/-! ## calls on one tokenizer object: the lazily built caches of `Vocabulary`
+
+`Vocabulary` builds three things on first use behind `sync.Once` and reuses them afterwards: the list of
+special tokens (`special`), and the two lookup maps (`values`, `merge`, which the model represents by the
+functions `tokId` / `rank` themselves).  The state threaded through a history of calls is the special-token
+cache; `compute` is what `SpecialVocabulary()` derives from `Values`/`Types`. -/
+
+structure TokState where
+  special : Option (List Special)
+
+def TokState.init : TokState := ⟨none⟩
+
+/-- `Vocabulary.SpecialVocabulary()`: compute once, then return the cached list -/
+def specialVocabulary (compute : List Special) (st : TokState) : List Special × TokState :=
+  match st.special with
+  | some l => (l, st)
+  | none => (compute, ⟨some compute⟩)
+
+/-- one `Encode` call on a tokenizer in state `st` (`enc` = either family's encoder given the specials) -/
+def encodeCall {α} (enc : List Special → α → List Nat) (compute : List Special) (st : TokState) (x : α) :
+    List Nat × TokState :=
+  let r := specialVocabulary compute st
+  (enc r.1 x, r.2)
+
+/-- a history of calls on one tokenizer object -/
+def runHistory {α} (enc : List Special → α → List Nat) (compute : List Special) :
+    TokState → List α → List (List Nat)
+  | _, [] => []
+  | st, x :: rest =>
+    let r := encodeCall enc compute st x
+    r.1 :: runHistory enc compute r.2 rest
+
+end OllamaVerif.Tok
